@@ -39,6 +39,8 @@ pub struct NumericParser {
     has_hanging_point: bool,
     /// the last large unit (万 億 兆), the next one has to be smaller
     last_large_unit: Option<i32>,
+    /// a unit was used: the numeral is a value, not a string of digits
+    has_unit: bool,
     pub error_state: Error,
     total: StringNumber,
     subtotal: StringNumber,
@@ -86,6 +88,7 @@ impl NumericParser {
             has_comma: false,
             has_hanging_point: false,
             last_large_unit: None,
+            has_unit: false,
             error_state: Error::NONE,
             total: StringNumber::new(),
             subtotal: StringNumber::new(),
@@ -99,6 +102,7 @@ impl NumericParser {
         self.has_comma = false;
         self.has_hanging_point = false;
         self.last_large_unit = None;
+        self.has_unit = false;
         self.error_state = Error::NONE;
         self.total.clear();
         self.subtotal.clear();
@@ -153,6 +157,7 @@ impl NumericParser {
                 return false;
             }
             self.tmp.clear();
+            self.has_unit = true;
             self.is_first_digit = true;
             self.digit_length = 0;
             self.has_comma = false;
@@ -171,6 +176,7 @@ impl NumericParser {
             self.subtotal.clear();
             self.tmp.clear();
             self.last_large_unit = Some(n);
+            self.has_unit = true;
             self.is_first_digit = true;
             self.digit_length = 0;
             self.has_comma = false;
@@ -198,7 +204,18 @@ impl NumericParser {
     }
 
     pub fn get_normalized(&mut self) -> String {
-        self.total.to_string()
+        let normalized = self.total.to_string();
+        if !self.has_unit {
+            // a plain digit string keeps its leading zeros: "001000"
+            return normalized;
+        }
+        // a scaled coefficient does not: "0.1万" is "1000", "0.0001万" is "1", "0.00001万" is "0.1"
+        let digits = normalized.trim_start_matches('0');
+        if digits.is_empty() || digits.starts_with('.') {
+            format!("0{}", digits)
+        } else {
+            digits.to_owned()
+        }
     }
 
     fn check_comma(&self) -> bool {
